@@ -148,20 +148,70 @@ Proof.
     destruct (Nat.eqb _ _); [|reflexivity]. destruct (declare_all _ _ _); cbn [obind]; [apply B1|reflexivity].
 Qed.
 
+(* ---------- the static rules (calls, typing sites) likewise ---------- *)
+Definition same_s (a b : stmt) : Prop := forall B F, stmt_sok B F a <-> stmt_sok B F b.
+
+Lemma lists_same_s body : Forall (fun st => same_s (raw_tree st) (stmt_tree st)) body -> forall e B F,
+  Forall (stmt_sok B F) (raw_trees body) <-> Forall (stmt_sok B F) (body_trees e body).
+Proof.
+  induction 1 as [|x l Hx _ IH]; intros e B F; [split; intro; constructor|].
+  cbn [raw_trees map body_trees]. fold (raw_trees l). destruct (is_blank x) eqn:Hb.
+  - rewrite (is_blank_empty x Hb). cbn [raw_tree]. destruct e.
+    + split; [intro H; inversion H; subst; apply IH; assumption | intro H; constructor; [exact I | apply (IH true); exact H]].
+    + split; intro H; inversion H; subst; constructor; try exact I; [apply IH | apply (IH true)]; assumption.
+  - split; intro H; inversion H; subst; constructor; try (apply (Hx B F); assumption); [apply IH | apply (IH false)]; assumption.
+Qed.
+
+Lemma blocks_same_s body : Forall (fun st => same_s (raw_tree st) (stmt_tree st)) body -> forall B F,
+  block_sok B F (blk_of (raw_trees body)) <-> block_sok B F (blk_of (body_trees false body)).
+Proof.
+  intros H B F. unfold blk_of. cbn [block_sok]. rewrite !stmts_sok_fix. apply (lists_same_s body H false).
+Qed.
+
+Lemma cbs_same_s cbs : Forall (Pblock (fun st => same_s (raw_tree st) (stmt_tree st))) cbs -> forall B F,
+  Forall (cb_sok B F) (map raw_cb cbs) <-> Forall (cb_sok B F) (map cb_tree cbs).
+Proof.
+  induction 1 as [|[c ch b] r Hx _ IH]; intros B F; [split; intro; constructor|]. cbn [Pblock] in Hx.
+  cbn [map raw_cb cb_tree]. pose proof (blocks_same_s b Hx B F) as Hb.
+  split; intro H; inversion H as [|? ? [H1 H2] H3]; subst; constructor; try (split; [exact H1|]; cbn [snd] in *; apply Hb; exact H2); apply IH; exact H3.
+Qed.
+
+Theorem raw_same_s : forall st, same_s (raw_tree st) (stmt_tree st).
+Proof.
+  induction st using fstmt_ind'; try (intros B F; reflexivity).
+  - destruct ifb as [c ch b]. intros B F. rewrite raw_tree_if, stmt_tree_if. cbn [stmt_sok].
+    pose proof (cbs_same_s elifs H0 B F) as Hc. cbn [Pblock] in H. pose proof (blocks_same_s b H B F) as Hb1.
+    rewrite !(brs_sok_fix B F).
+    assert (He : match els with Some (_, eb) => (block_sok B F (blk_of (raw_trees eb)) <-> block_sok B F (blk_of (body_trees false eb))) | None => True end)
+      by (destruct els as [[ce eb]|]; [exact (blocks_same_s eb (H1 ce eb eq_refl) B F) | exact I]).
+    cbn [raw_cb cb_tree fst snd]. destruct els as [[ce eb]|]; tauto.
+  - intros B F. change (raw_tree (FmtAst.SWhile cond ch body ce)) with (Parser.SWhile (Some (fexpr_tree cond)) (blk_of (raw_trees body))).
+    rewrite stmt_tree_while. cbn [stmt_sok]. pose proof (blocks_same_s body H B F). tauto.
+  - intros B F. change (raw_tree (FmtAst.SFor lv r ch body ce)) with (Parser.SFor lv (range_trees r) (blk_of (raw_trees body))).
+    rewrite stmt_tree_for. cbn [stmt_sok]. pose proof (blocks_same_s body H B F). tauto.
+  - intros B F. pose proof (blocks_same_s body H B F) as Hb. exact Hb.
+  - intros B F. pose proof (blocks_same_s body H B F) as Hb. exact Hb.
+Qed.
+
 (* ---------- programs ---------- *)
 Lemma prog_same p : structure_ok (raw_trees p) = structure_ok (body_trees false p) /\
-                    forall T, scope_prog T (raw_trees p) = scope_prog T (body_trees false p).
+                    (forall T, scope_prog T (raw_trees p) = scope_prog T (body_trees false p)) /\
+                    (forall B F, stmts_sok B F (raw_trees p) <-> stmts_sok B F (body_trees false p)).
 Proof.
   assert (H : Forall (fun st => same_j (raw_tree st) (stmt_tree st)) p) by (apply Forall_forall; intros; apply raw_same).
-  destruct (lists_same p H false) as (I1 & I2 & I3 & _). split.
+  assert (H' : Forall (fun st => same_s (raw_tree st) (stmt_tree st)) p) by (apply Forall_forall; intros; apply raw_same_s).
+  destruct (lists_same p H false) as (I1 & I2 & I3 & _). split; [|split].
   - unfold structure_ok. rewrite I2, I3. reflexivity.
   - intro T. unfold scope_prog. rewrite I1. reflexivity.
+  - intros B F. exact (lists_same_s p H' false B F).
 Qed.
 
 Section Lift.
   Variable B : benv.
   Hypothesis BT : forall s t n, b_tyerr B s t n = false.
   Variable fx : fixes.
+
+  Hypothesis TOK : tbl_ok (builtin_table B).
 
   (* the source may contain any number of blank lines anywhere *)
   Theorem program_roundtrip_source p raw eof0 poss eof :
@@ -170,9 +220,10 @@ Section Lift.
     List.length poss = List.length (toks_of_pieces (fmt_prog fx p)) ->
     parse B (combine (toks_of_pieces (fmt_prog fx p)) poss) eof = Accept (body_trees false p).
   Proof.
-    intros Hacc Hfn Hne He Hlen. destruct (prog_same p) as [S1 S2].
-    apply (program_roundtrip_judged B BT fx p poss eof Hne He); [| |exact Hlen].
+    intros Hacc Hfn Hne He Hlen. destruct (prog_same p) as (S1 & S2 & S3).
+    apply (program_roundtrip_judged B BT fx TOK p poss eof Hne He); [| | |exact Hlen].
     - rewrite <- S1. exact (accept_structure B raw eof0 _ Hacc).
+    - apply S3. rewrite <- Hfn. exact (accept_static B raw eof0 _ Hacc).
     - rewrite <- S2, <- Hfn. exact (accept_scoped B raw eof0 _ Hacc).
   Qed.
 End Lift.
